@@ -439,9 +439,7 @@ func probeError() error {
 	case 1:
 		return fmt.Errorf("probe sub-operation: %w", context.DeadlineExceeded)
 	case 2:
-		if os.Getenv("VERIF_CANCELED_FAILURES") == "1" {
-			return fmt.Errorf("probe sub-operation: %w", context.Canceled)
-		}
+		return fmt.Errorf("probe sub-operation: %w", context.Canceled)
 	}
 
 	return errProbe
